@@ -3,6 +3,7 @@ import itertools
 
 import numpy as np
 
+from vf import history as H
 from vf import instrument as I
 from vf.core import digest
 from vf.gen import gen_data
@@ -81,6 +82,14 @@ def split_inequality_ok(C, n, lo):
     return True
 
 
+def _tol(C, n, beta):
+    """Purely relative: the reference and the implementation add up the SAME cost-table entries, so
+    they differ by summation order only (<= n rounding steps on numbers of the table's magnitude).
+    No absolute slack: costs scale with the square of the data's unit of measurement."""
+    fin = np.abs(C[np.isfinite(C)])
+    return 1e-9 * n * ((fin.max() if fin.size else 0.0) + abs(beta)) + 1e-300
+
+
 def make_recipe(rng, tier):
     k = ["L2Cost", "L2Cost", "GaussianVarCost", "GaussianCovCost", "L2fixed", "GVarfixed", "L1Cost",
          "ModeCost", "ClosureTableCost", "none"][int(rng.integers(10))]
@@ -126,14 +135,22 @@ def make_recipe(rng, tier):
     X, _ = gen_data(rng, n, p, dk)
     if k in ("GaussianVarCost", "GaussianCovCost") and rng.random() < 0.4:
         X = X * float(rng.choice([0.01, 0.05, 0.15]))  # small scale: negative Gaussian costs
+    elif k in ("L2Cost", "none", "L1Cost", "L2fixed") and rng.random() < 0.25:
+        # the same signal in a small unit of measurement: costs of order unit^2 (no absolute
+        # tolerance anywhere may hide them); only small penalties give changepoints there
+        X = X * float(rng.choice([1e-3, 1e-5, 1e-7]))
+        dk = dk + "*tiny"
     if k == "ClosureTableCost" and rng.random() < 0.5:
         cost["kw"]["offset"] = int(rng.choice([2, 5]))  # negative table costs
     scale = float(rng.choice([0.0, 1e-6, 0.02, 0.1, 0.3, 0.7, 1.0, 2.0, 3.0]))
+    if dk.endswith("*tiny"):
+        scale = float(rng.choice([0.0, 0.0, 1e-15, 1e-12, 1e-9]))
     int_dtype = bool(k in ("L2Cost", "none", "L1Cost", "L2fixed") and rng.random() < 0.15)
     if int_dtype:
         X = np.round(X * 2)
     return {"cost": cost, "msl": msl, "scale": scale, "X": X, "data_kind": dk, "user": user,
-            "int_dtype": int_dtype}
+            "int_dtype": int_dtype, "history": H.pick(rng), "hseed": int(rng.integers(2 ** 31)),
+            "frame": "df" if rng.random() < 0.5 else None}
 
 
 def exec_case(ctx, r, exhaustive=False):
@@ -162,9 +179,13 @@ def exec_case(ctx, r, exhaustive=False):
     I.drain()
     I.start_trace()
     try:
-        det = build(spec).fit(X)
-        y = det.predict(X)
-        scores = np.asarray(det.transform_scores(X), dtype=float).ravel()
+        # the judged calls may come after a history on the caller's same object (vf/history.py):
+        # Xarg holds exactly X's values and X's shape (penalties depend on the training shape)
+        hist = r.get("history") if r.get("history") in ("same_object", "inplace") else None
+        det, Xarg = H.prepare(build(spec), X, hist, r.get("hseed", 0), 2 * msl, r.get("frame"))
+        ctx.stat(f"history[{hist}]")
+        y = det.predict(Xarg)
+        scores = np.asarray(det.transform_scores(Xarg), dtype=float).ravel()
     except RuntimeError:
         I.stop_trace()
         ctx.stat("documented_runtimeerror")
@@ -184,8 +205,7 @@ def exec_case(ctx, r, exhaustive=False):
         ctx.stat("premise_failed_discarded")
         return
     F = reference_op(C, n, msl, beta)
-    fin = F[np.isfinite(F)]
-    tol = 1e-9 * (1 + np.abs(fin).max())
+    tol = _tol(C, n, beta)
 
     # trace facts (evidence): did the implementation prune a start?
     pruned = False
@@ -235,7 +255,7 @@ def exec_case(ctx, r, exhaustive=False):
             s2 = np.asarray(det.transform_scores(X), dtype=float).ravel()
             F2 = reference_op(C, n, msl, beta2)
             ctx.stat("refit_then_scores")
-            bad2 = ts[np.abs(s2[ts - 1] - F2[ts]) > 1e-9 * (1 + np.abs(F2[np.isfinite(F2)]).max())]
+            bad2 = ts[np.abs(s2[ts - 1] - F2[ts]) > _tol(C, n, beta2)]
             if bad2.size:
                 t = int(bad2[0])
                 ctx.violation(sub, "scores-after-refit", f"{label}: after refitting on {len(X2)} samples "
@@ -288,7 +308,7 @@ def direct_case(ctx, r):
         ctx.stat("premise_failed_discarded")
         return
     F = reference_op(C, n, msl, float(pen))
-    tol = 1e-9 * (1 + np.abs(F[np.isfinite(F)]).max())
+    tol = _tol(C, n, float(pen))
     scores = np.asarray(scores, dtype=float)
     ts = np.arange(msl, n + 1)
     bad = ts[np.abs(scores[ts - 1] - F[ts]) > tol]
